@@ -473,6 +473,10 @@ Theorem ES_accepts_exactly_the_published_rule_refuted :
 Proof. exact valid_ES_iff_spec_refuted. Qed.
 Print Assumptions ES_accepts_exactly_the_published_rule_refuted.
 
+Theorem IN_accepts_exactly_the_published_rule c : valid_IN c = true <-> c = [] \/ Spec_IN c.
+Proof. exact (valid_IN_iff_spec c). Qed.
+Print Assumptions IN_accepts_exactly_the_published_rule.
+
 (* GB (9 digits) *)
 Theorem GB_accepts_exactly_the_published_rule c :
   List.length c = 9%nat ->
